@@ -164,7 +164,8 @@ def r3_placed_once(ctx: Context) -> None:
     if not ok and it is not None:
         # a second loop over the very same batch (the slice, or the local that names it) that removes `<its variable>.task`
         same = [l for l in ast.walk(fn) if isinstance(l, ast.For) and l is not lp and ast.unparse(resolve_local(fn, l.iter)) == ast.unparse(resolve_local(fn, it.iter))
-                and isinstance(l.iter, ast.Name) and any(call_name(c) == "remove_task" and is_self_attr(c.func) and c.args and norm(c.args[0]) == f"{norm(l.target)}.task" for c in calls_in(l))]
+                and (isinstance(l.iter, ast.Name) or not any(call_name(c) in ("remove_task", "remove", "pop", "clear") and lp.lineno <= c.lineno < l.lineno for c in calls_in(fn)))
+                and any(call_name(c) == "remove_task" and is_self_attr(c.func) and c.args and norm(c.args[0]) == f"{norm(l.target)}.task" for c in calls_in(l))]
         if same:
             ok, rm_loops = True, same
     direct = any(call_name(c) == "remove_task" and norm(c.args[0]) == f"{rq}.task" and lp is not None and any(c is x for x in ast.walk(lp)) for c in calls_in(fn))
